@@ -1060,8 +1060,7 @@ def oracle_item(case, out):
     if "ok" in out:
         ty, va, de = case["spec"]
         if py_has_item_type(ty, va, out["ok"]) is False:
-            fails.append({"sig": "ill-typed:" + split_validator(va.split(":")[0] if ty in ("dict", "event_handler") else va)[0]
-                          if False else "ill-typed",
+            fails.append({"sig": "ill-typed:" + (split_validator(va)[0] if ty not in ("dict", "event_handler") else "dict"),
                           "what": "validate_config_item(%r, item=%r) returned %r, which is not a value of the declared type" %
                                   (case["spec"], case.get("item", "<absent>"), out["ok"])})
     return fails
@@ -1164,7 +1163,7 @@ def gen_source_for(rng, merged):
             src[k] = item_for(rng, e[1], e[2])
     r = rng.random()
     if r < 0.25:
-        src[rng.choice(["zz", "unknown", "_hidden", "A ", "", "aa", "b b"])] = rvalue(rng)
+        src[rng.choice(["zz", "unknown", "_hidden", "A ", "", "aa", "b b", "x_z", "zz_", "_", "a_", "Name", "label"])] = rvalue(rng)
     elif r < 0.30:
         src[rng.choice([5, None, True, 1.5])] = rvalue(rng)
     elif r < 0.40 and merged:
